@@ -14,10 +14,10 @@ OP = lambda op, a, b: ("op", op, a, b)
 
 SLOT_TYPES = ["u8", "i8", "u16", "i16be", "bcd8", "u32", "enum8", "inner", "dyn", "pars", "bitsT", "anon",
               "arr_u8x2", "arr_auto", "arr_i16x2", "arr_inner", "f32", "bcd16", "u64", "senum8", "arr_bits", "i32"]
-STARTS = ["const", "off", "next", "next+1", "off+1", "overlap", "prevval", "2*off+1"]
+STARTS = ["const", "off", "next", "next+1", "off+1", "overlap", "prevval", "2*off+1", "fwdval"]
 CONDS = ["always", "tag==1", "tag==2", "off<3", "flg", "flg&&tag==1", "flg||tag==1", "present_prev", "tag==5",
          "param", "prev==7", "tag!=0&&len==1", "prev==7&&tag==1", "tag==1&&prev==7", "prev==7||tag==1",
-         "tag==1||prev==7"]
+         "tag==1||prev==7", "fwd==7"]
 CONDALL = ["none", "tag==1", "off<3"]
 ATTRS = ["none", "req<100", "req!=0", "skip", "emit"]
 VIRTS = ["none", "x+1", "10-x", "alias", "nested_inv", "const", "bool", "max", "choice", "x+1_req", "cond_virt",
@@ -188,6 +188,8 @@ def program(ch, menu=None):
                 start = F("off")
         elif start_kind == "2*off+1":
             start = OP("+", OP("*", C(2), F("off")), C(1))
+        elif start_kind == "fwdval":
+            start = F("f%d" % (i + 1)) if i + 1 < nslots else F("off")
         # ---- condition
         cond = None
         if cond_kind == "tag==1":
@@ -229,6 +231,9 @@ def program(ch, menu=None):
             tc = OP("==", F("tag"), C(1))
             op2 = "&&" if "&&" in cond_kind else "||"
             cond = OP(op2, pc, tc) if cond_kind.startswith("prev") else OP(op2, tc, pc)
+        elif cond_kind == "fwd==7":
+            # forward reference: the condition reads a field declared later in the source
+            cond = OP("==", F("f%d" % (i + 1)), C(7)) if i + 1 < nslots else OP("==", F("tag"), C(1))
         if cond is None and condall == "tag==1":
             cond = OP("==", F("tag"), C(1))
         elif cond is None and condall == "off<3":
